@@ -69,13 +69,26 @@ SetBuiltinsDisabled(c, d) ==
 \* serde round trip: variables and switch survive, functions do not
 SerdeProjection(c) == [c EXCEPT !.funcs = EmptyMap]
 
+\* A user function observed rather than known (trace validation of executions with arbitrary closures): behaviour
+\* [b |-> "oracle", v, rs], rs = the recorded calls of this function in order, [a: argument, r: result].  The k-th
+\* call of the function in the specification's evaluation must carry the k-th recorded argument and yields the k-th
+\* recorded result; any other call is answered with an error no real execution produces.
+BehOracle(rs) == [b |-> "oracle", v |-> VEmpty, rs |-> rs]
+OracleResult(f, log, n, arg) ==
+  LET k == Len(SelectSeq(log, LAMBDA c : c.n = n)) + 1 IN
+  IF k > Len(f.rs) THEN Er(ErrBase("OracleExhausted"))
+  ELSE IF ~SameValue(f.rs[k].a, arg) THEN Er(ErrBase("OracleArgumentMismatch"))
+  ELSE f.rs[k].r
+
 St(c, log) == [ctx |-> c, log |-> log]
 Res(r, st) == [r |-> r, st |-> st]
 
 \* function resolution: the context's own function, else a builtin if enabled, else unknown
 CallFunction(st, n, arg) ==
   IF n \in DOMAIN st.ctx.funcs
-  THEN Res(RunBehaviour(st.ctx.funcs[n], arg), [st EXCEPT !.log = Append(st.log, [n |-> n, a |-> arg])])
+  THEN LET f == st.ctx.funcs[n] IN
+       Res(IF f.b = "oracle" THEN OracleResult(f, st.log, n, arg) ELSE RunBehaviour(f, arg),
+           [st EXCEPT !.log = Append(st.log, [n |-> n, a |-> arg])])
   ELSE IF ~st.ctx.nb /\ IsBuiltinName(n) THEN Res(ApplyBuiltin(BuiltinId[n], arg), st)
   ELSE Res(Er(FunctionIdentifierNotFound(n)), st)
 
